@@ -82,3 +82,11 @@ func GenTape(r *Rng, entries, meanBurst int) []TapeEntry {
 	}
 	return t
 }
+
+// Int63n returns a value in [0,n).
+func (r *Rng) Int63n(n int64) int64 {
+	if n <= 0 {
+		return 0
+	}
+	return int64(r.U64() % uint64(n))
+}
